@@ -47,41 +47,6 @@ structure OpsOK : Prop where
 
 /-! ### facts about leaves -/
 
-theorem new_WF (b s : Nat) (l u : Int) (hb : 0 < b) (h : s = 0 → imod l b = imod u b) : (SI.new b s l u).WF := by
-  have hl := imod_lt l b
-  have hu := imod_lt u b
-  have hm : 2 ≤ 2 ^ b := by
-    have : 2 ^ 1 ≤ 2 ^ b := Nat.pow_le_pow_right (by omega) hb
-    simpa using this
-  unfold SI.WF
-  rw [new_eq]
-  by_cases h1 : imod l b = imod u b
-  · rw [if_pos h1]
-    exact ⟨hb, hl, hu, by simp [h1]⟩
-  · rw [if_neg h1]
-    by_cases h2 : imod l b = (imod u b + 1) % 2 ^ b ∧ s = 1
-    · rw [if_pos h2]
-      obtain ⟨_, hs1⟩ := h2
-      subst hs1
-      refine ⟨hb, ?_, ?_, ?_⟩
-      · show 0 < 2 ^ b; omega
-      · show 2 ^ b - 1 < 2 ^ b; omega
-      · show (1 = 0 ↔ 0 = 2 ^ b - 1)
-        constructor
-        · intro hs; cases hs
-        · intro hh; omega
-    · rw [if_neg h2]
-      refine ⟨hb, hl, hu, ?_⟩
-      constructor
-      · intro hs; exact absurd (h hs) h1
-      · intro hh; exact absurd hh h1
-
-theorem top_WF (w : Nat) (hw : 0 < w) : (SI.top w).WF := by
-  unfold SI.top
-  exact new_WF w 1 0 _ hw (by intro h; cases h)
-
-theorem top_bits (w : Nat) : (SI.top w).bits = w := by unfold SI.top; simp
-
 theorem const_WF (v w : Nat) (hw : 0 < w) : (SI.new w 0 v v).WF := new_WF w 0 v v hw (fun _ => rfl)
 
 theorem const_mem (v w : Nat) (hv : v < 2 ^ w) : (SI.new w 0 (v : Int) (v : Int)).mem v := by
